@@ -7,4 +7,6 @@ cd "$HERE/harness"
 mkdir -p target
 cargo build --offline --profile fast --bin vcheck
 cargo build --offline --profile checked --bin vcheck
+cd "$HERE/harness-nostd"
+cargo build --offline --profile fast
 echo "setup ok"
